@@ -90,6 +90,10 @@ for nm, e in [
  ('tuple_ret', '{ fn f(s: &str) -> (usize, bool) { (s.len(), s.is_empty()) } f(s) }'),
  ('slice_pattern', 'match s.as_bytes() { [] => 0, [a] => *a as usize, [a, .., b] => *a as usize + *b as usize }'),
  ('saturating_idx', 's.get(n.saturating_sub(1)..).map(|x| x.len())'),
+ ('closure_direct', '{ let f = || 5usize; f() + f() }'), ('closure_capture', '{ let k = n; let f = |x: usize| x + k; f(1) + f(2) }'), ('closure_nocap_arg', '{ let f = |x: &str| x.len(); f(s) }'),
+ ('fn_item_map', 's.split(\',\').map(str::trim).collect::<Vec<&str>>()'), ('fn_item_filter', 's.chars().filter(char::is_ascii_digit).count()'),
+ ('ok_or_else_closure', '{ let e = || "bad".to_string(); s.split_once(\',\').ok_or_else(e).map(|x| x.0.len()) }'),
+ ('closure_mut', '{ let mut k = 0usize; let mut f = |x: usize| { k += x; }; f(1); f(n); k }'),
 ]: add('sn', nm, e)
 
 SIG = {'ss': 's: &str, t: &str', 'sc': 's: &str, c: char', 'sn': 's: &str, n: usize', 'vn': 'v: &[u8], n: usize', 'or': 'a: Option<usize>, b: Result<usize, String>', 'ux': 'a: u64, b: u64, c: i32, x: u8'}
